@@ -15,7 +15,7 @@ static void show_dec(char *buf, size_t cap, size_t n) {
 
 int main(void) {
     char *line = NULL; size_t cap = 0; ssize_t len;
-    setvbuf(stdout, NULL, _IOFBF, 1 << 16);
+    harness_init();
     while ((len = getline(&line, &cap, stdin)) > 0) {
         char *w[MAXW]; int nw = split_words(line, w);
         if (nw == 0) continue;
